@@ -46,6 +46,8 @@ pub fn label_c01(rng: &mut Rng, t: &mut Rose, kind: LenKind, len_mode: LenMode) 
     let inty = rng.below(10);
     let cm = rng.below(6);
     let root_len = rng.chance(1, 3);
+    // lengths on internal branches only / on terminal branches only are partial annotations too
+    let pattern = rng.below(8);
     let mut f = |r: &mut Rose, is_root: bool, _d: usize| {
         k += 1;
         let tip = r.kids.is_empty();
@@ -59,7 +61,11 @@ pub fn label_c01(rng: &mut Rng, t: &mut Rose, kind: LenKind, len_mode: LenMode) 
         let want = match len_mode {
             LenMode::None => false,
             LenMode::All => true,
-            LenMode::Mixed => rng.chance(1, 2),
+            LenMode::Mixed => match pattern {
+                0 => !tip,
+                1 => tip,
+                _ => rng.chance(1, 2),
+            },
         };
         if want && (!is_root || root_len) {
             r.len = Some(gen_len(rng, kind));
